@@ -20,9 +20,9 @@ Proof. exact ScopeProofs.closed_frame_rejects_unknown. Qed.
 Print Assumptions closed_frame_rejects_unknown.
 
 (* whatever else the name denotes, it is never bound to a column (known or inferred) *)
-Theorem closed_frame_never_binds_a_column : forall sc n,
+Theorem closed_frame_never_binds_a_column : forall c sc n,
   scope_closed sc = true -> in_frames sc n = false ->
-  match lower_ref sc ([], n) with OColumn _ _ _ | OInferredColumn _ _ => False | _ => True end.
+  match lower_ref c sc ([], n) with OColumn _ _ _ | OInferredColumn _ _ => False | _ => True end.
 Proof. exact closed_frame_outcome. Qed.
 Print Assumptions closed_frame_never_binds_a_column.
 
@@ -113,106 +113,222 @@ Print Assumptions c10_std_transforms_take_a_relation.
    (let-table) is never a value: the reference is an error -- "expected a value, but found module" / "table variable
    cannot be used as a scalar value", or ambiguous when the name denotes something else too.  Before a131b2a it
    resolved to that declaration, carried no target id, and lower_expr's fallback sent the bare name to SQL. *)
-Theorem module_or_relation_name_is_not_a_value : forall sc n,
+Theorem module_or_relation_name_is_not_a_value : forall c sc n,
   names_module_or_table sc n = true ->
-  lower_ref sc ([], n) = OErr ENotAValue \/ lower_ref sc ([], n) = OErr EAmbiguous.
+  lower_ref c sc ([], n) = OErr ENotAValue \/ lower_ref c sc ([], n) = OErr EAmbiguous.
 Proof. exact ScopeProofs.module_or_relation_name_is_not_a_value. Qed.
 Print Assumptions module_or_relation_name_is_not_a_value.
 
 (* ---- no silent passthrough ----
-   Full statement (still FALSE of the faithful model and of the implementation, but only through finding C10-F2):
-     forall sc n, scope_closed sc = true -> in_frames sc n = false -> lower_ref sc ([], n) <> OPassthrough
-   The one reference left that reaches SQL unresolved is the bare name `that` outside a join condition: while the
-   arguments of a transform are resolved the root module holds an EMPTY module `that` (resolve_function_args shadows
-   it), the name resolves to it, and at lowering time that module is gone -- lower_expr sees neither a module nor a
-   relation type and falls back to passing `that` to SQL. *)
+   The model is parameterised by what lower_expr's ident arm looks like in the source NOW ([head_cfg], regenerated on
+   every run).  Full statement:
+     forall sc id, lower_ref head_cfg sc id <> OPassthrough
+   * cfg_that_rejected = true (the C10-F2 repair is in the source): TRUE, for every identifier in every scope.
+   * cfg_that_rejected = false: FALSE of the faithful model and of the implementation, through one identifier -- the bare
+     name `that` outside a join condition: while the arguments of a transform are resolved the root module holds an EMPTY
+     module `that` (resolve_function_args shadows it), the name resolves to it, and at lowering time that module is gone --
+     lower_expr sees neither a module nor a relation type and falls back to passing `that` to SQL (finding C10-F2).
+   [no_silent_passthrough_at c] is the statement that holds for configuration c; [c10_head_no_silent_passthrough] is
+   it at the head configuration -- the check reads which branch that is from Gen/GenC10Std.v. *)
 
 Definition s_date : str := [100;97;116;101].
 Definition ex_scope : scope :=
   mkScope [(s_std_name, NModule); (s_db_name, NModule)]
           (mkFrame [mkInput [116] [[97]] false] []) None [] std_names.
 
-Theorem no_silent_passthrough_refuted :
-  exists sc n, scope_closed sc = true /\ in_frames sc n = false /\ lower_ref sc ([], n) = OPassthrough.
-Proof. exists ex_scope, s_that_name. vm_compute. auto. Qed.
+Theorem no_silent_passthrough : forall c, cfg_that_rejected c = true ->
+  forall sc id, lower_ref c sc id <> OPassthrough.
+Proof. exact ScopeProofs.no_silent_passthrough_fixed. Qed.
+Print Assumptions no_silent_passthrough.
+
+Theorem no_silent_passthrough_refuted : forall c, cfg_that_rejected c = false ->
+  exists sc n, scope_closed sc = true /\ in_frames sc n = false /\ lower_ref c sc ([], n) = OPassthrough.
+Proof. intros [a b] H. cbn in H. subst a. exists ex_scope, s_that_name. vm_compute. auto. Qed.
 Print Assumptions no_silent_passthrough_refuted.
 
-(* every passthrough is that one: any identifier, qualified or not, in any scope *)
-Theorem passthrough_only_bare_that : forall sc id,
-  lower_ref sc id = OPassthrough -> fst id = [] /\ leqb (snd id) s_that_name = true /\ s_that sc = None.
+(* every passthrough is that one: any identifier, qualified or not, in any scope, and only without the repair *)
+Theorem passthrough_only_bare_that : forall c sc id,
+  lower_ref c sc id = OPassthrough ->
+  fst id = [] /\ leqb (snd id) s_that_name = true /\ s_that sc = None /\ cfg_that_rejected c = false.
 Proof. exact ScopeProofs.passthrough_only_bare_that. Qed.
 Print Assumptions passthrough_only_bare_that.
 
-Theorem no_silent_passthrough_partial : forall sc n,
-  leqb n s_that_name = false \/ s_that sc <> None -> lower_ref sc ([], n) <> OPassthrough.
+Theorem no_silent_passthrough_partial : forall c sc n,
+  leqb n s_that_name = false \/ s_that sc <> None -> lower_ref c sc ([], n) <> OPassthrough.
 Proof. exact ScopeProofs.no_silent_passthrough_partial. Qed.
 Print Assumptions no_silent_passthrough_partial.
 
+Definition no_silent_passthrough_at (c : cfg) : Prop :=
+  if cfg_that_rejected c
+  then forall sc id, lower_ref c sc id <> OPassthrough
+  else (exists sc n, scope_closed sc = true /\ in_frames sc n = false /\ lower_ref c sc ([], n) = OPassthrough)
+       /\ (forall sc n, leqb n s_that_name = false \/ s_that sc <> None -> lower_ref c sc ([], n) <> OPassthrough).
+
+Theorem c10_head_no_silent_passthrough : no_silent_passthrough_at head_cfg.
+Proof.
+  unfold no_silent_passthrough_at. destruct (cfg_that_rejected head_cfg) eqn:E.
+  - apply no_silent_passthrough. exact E.
+  - split; [apply no_silent_passthrough_refuted; exact E | apply no_silent_passthrough_partial].
+Qed.
+Print Assumptions c10_head_no_silent_passthrough.
+
 (* the former witness of C10-F1 (`from t | select {a} | derive {x = date}`, date from the GENERATED std table) is an error now *)
 Example c10_ex_former_f1_witness :
-  lower_ref ex_scope ([], s_date) = OErr ENotAValue
-  /\ lower_ref ex_scope ([], s_std_name) = OErr ENotAValue
-  /\ lower_ref ex_scope ([], s_db_name) = OErr ENotAValue
-  /\ lower_ref ex_scope ([s_db_name], [98]) = OErr ENotAValue                    (* default_db.b *)
-  /\ lower_ref_in true ex_scope ([s_db_name], [98]) = OPassthrough               (* s"{default_db.b}": spliced, by design *)
-  /\ lower_ref_in true ex_scope ([], s_date) = OErr ENotAValue.                  (* a module is not spliced *)
+  lower_ref head_cfg ex_scope ([], s_date) = OErr ENotAValue
+  /\ lower_ref head_cfg ex_scope ([], s_std_name) = OErr ENotAValue
+  /\ lower_ref head_cfg ex_scope ([], s_db_name) = OErr ENotAValue
+  /\ lower_ref head_cfg ex_scope ([s_db_name], [98]) = OErr ENotAValue                    (* default_db.b *)
+  /\ lower_ref_in head_cfg true ex_scope ([s_db_name], [98]) = OPassthrough               (* s"{default_db.b}": spliced, by design *)
+  /\ lower_ref_in head_cfg true ex_scope ([], s_date) = OErr ENotAValue.                  (* a module is not spliced *)
 Proof. vm_compute. auto 10. Qed.
+
+(* `that` with and without the repair *)
+Example c10_ex_that :
+  lower_ref (mkCfg false false) ex_scope ([], s_that_name) = OPassthrough
+  /\ lower_ref (mkCfg true false) ex_scope ([], s_that_name) = OErr ENotAValue.
+Proof. vm_compute. auto. Qed.
 
 (* ---- declarations inside modules: table references look at the enclosing modules first (repair d92afac) ---- *)
 
 (* anything but a relation variable found there makes the call an error (before: a database table of that name) *)
-Theorem enclosing_nonrelation_where_relation_rejected : forall ms id c f args named i k,
-  rel_enclosing (ms_mods ms) (shadowed (ms_scope ms)) (ms_cur ms) id = Some c ->
-  arg_kind_of c <> ARel ->
-  rel_arg_kind_m ms id = Some k ->
+Theorem enclosing_nonrelation_where_relation_rejected : forall c ms id x f args named i k,
+  rel_enclosing c (ms_mods ms) (shadowed (ms_scope ms)) (ms_cur ms) id = Some x ->
+  arg_kind_of x <> ARel ->
+  rel_arg_kind_m c ms id = Some k ->
   nth_error (fs_params f) i = Some PRel -> nth_error args i = Some k ->
   length args = length (fs_params f) ->
   exists e, apply_fn f args named = AErr e.
 Proof. exact ScopeProofs.enclosing_nonrelation_where_relation_rejected. Qed.
 Print Assumptions enclosing_nonrelation_where_relation_rejected.
 
-Theorem sibling_constant_where_relation_rejected : forall ms m cur n f args named i k,
+Theorem sibling_constant_where_relation_rejected : forall c ms m cur n f args named i k,
   ms_cur ms = m :: cur ->
   mlookup (ms_mods ms) (shadowed (ms_scope ms)) (m :: cur, n) = [CRoot NValue] ->
-  rel_arg_kind_m ms ([], n) = Some k ->
+  rel_arg_kind_m c ms ([], n) = Some k ->
   nth_error (fs_params f) i = Some PRel -> nth_error args i = Some k ->
   length args = length (fs_params f) ->
   exists e, apply_fn f args named = AErr e.
 Proof. exact ScopeProofs.sibling_constant_where_relation_rejected. Qed.
 Print Assumptions sibling_constant_where_relation_rejected.
 
-Theorem sibling_table_is_a_relation : forall ms m cur n,
+Theorem sibling_table_is_a_relation : forall c ms m cur n,
   ms_cur ms = m :: cur ->
   mlookup (ms_mods ms) (shadowed (ms_scope ms)) (m :: cur, n) = [CRoot NTable] ->
-  rel_arg_kind_m ms ([], n) = Some ARel.
+  rel_arg_kind_m c ms ([], n) = Some ARel.
 Proof. exact ScopeProofs.sibling_table_is_a_relation. Qed.
 Print Assumptions sibling_table_is_a_relation.
 
-Theorem sibling_shadows_in_value_position : forall ms m cur id r,
+Theorem sibling_shadows_in_value_position : forall c ms m cur id r,
   ms_cur ms = m :: cur ->
   resolve_core_m (ms_mods ms) (ms_scope ms) ((m :: cur) ++ fst id, snd id) = r ->
-  (forall e, r <> RErr e) -> resolve_m ms id = r.
+  (forall e, r <> RErr e) -> resolve_m c ms id = r.
 Proof. exact ScopeProofs.sibling_shadows_in_value_position. Qed.
 Print Assumptions sibling_shadows_in_value_position.
 
-(* `module m { let k = 5  let r = (from t | select {a})  let q = (from k) }`: in q, `from k` is the constant (an
-   error), `from r` the sibling relation; before d92afac `from k` was the database table k.
-   `module m { let k = 5  module n { let q = (from k) } }`: m.n.k and n.k do not exist, the parent's m.k is never
-   tried (pop_front) -- `from k` is still the database table k (finding C10-F3). *)
+(* ---- the declarations of the PARENT modules (reference/spec/modules.md: "If an identifier cannot be resolved relative to
+   the current module, it tries to resolve relative to the parent module ... stepping up the module hierarchy") ----
+   Full statement: a declaration of an enclosing module is found unless a closer module declares the name.
+   * cfg_parent_walk = true (the C10-F3 repair is in the source): TRUE -- every ancestor is visited, innermost first
+     (parent_walk_visits_every_ancestor), and at depth 2 the parent's declaration is found (parent_declaration_found), so the
+     parent's constant in `from` is an error (parent_constant_where_relation_rejected).
+   * cfg_parent_walk = false (pop_front: m.n.x -> n.x -> x): FALSE -- the walk visits [n], not [m]
+     (pop_front_walk_misses_parent); `module m { let k = 5  module n { let q = (from k) } }` reads database table k (C10-F3). *)
+Theorem parent_walk_visits_every_ancestor : forall c pre x suf,
+  cfg_parent_walk c = true -> In (pre ++ [x]) (walk c (pre ++ x :: suf)).
+Proof. exact ScopeProofs.parent_walk_visits_every_ancestor. Qed.
+Print Assumptions parent_walk_visits_every_ancestor.
+
+Theorem parent_declaration_found : forall c mods sc m n id x,
+  cfg_parent_walk c = true ->
+  (forall y, mlookup mods sc ([m; n] ++ fst id, snd id) <> [y]) ->
+  mlookup mods sc ([m] ++ fst id, snd id) = [x] ->
+  rel_enclosing c mods sc [m; n] id = Some x.
+Proof. exact ScopeProofs.parent_declaration_found. Qed.
+Print Assumptions parent_declaration_found.
+
+Theorem parent_constant_where_relation_rejected : forall c ms m n name f args named i k,
+  cfg_parent_walk c = true -> ms_cur ms = [m; n] ->
+  (forall y, mlookup (ms_mods ms) (shadowed (ms_scope ms)) ([m; n], name) <> [y]) ->
+  mlookup (ms_mods ms) (shadowed (ms_scope ms)) ([m], name) = [CRoot NValue] ->
+  rel_arg_kind_m c ms ([], name) = Some k ->
+  nth_error (fs_params f) i = Some PRel -> nth_error args i = Some k ->
+  length args = length (fs_params f) ->
+  exists e, apply_fn f args named = AErr e.
+Proof. exact ScopeProofs.parent_constant_where_relation_rejected. Qed.
+Print Assumptions parent_constant_where_relation_rejected.
+
+Theorem pop_front_walk_misses_parent : forall c mods sc m n id,
+  cfg_parent_walk c = false ->
+  (forall y, mlookup mods sc ([m; n] ++ fst id, snd id) <> [y]) ->
+  (forall y, mlookup mods sc ([n] ++ fst id, snd id) <> [y]) ->
+  rel_enclosing c mods sc [m; n] id = None.
+Proof. exact ScopeProofs.pop_front_walk_misses_parent. Qed.
+Print Assumptions pop_front_walk_misses_parent.
+
+(* `module m { let k = 5  let r = (from t | select {a})  module n { let q = (..) } }` *)
 Definition ex_mods : list (list str * nkind) := [([[109]; [107]], NValue); ([[109]; [114]], NTable); ([[109]; [110]], NModule)].
 Definition ex_ms (cur : list str) : mscope :=
   mkMScope (mkScope [(s_std_name, NModule); (s_db_name, NModule); ([109], NModule)] (mkFrame [] []) None [] std_names) cur ex_mods.
 
+Definition parent_visible_at (c : cfg) : Prop :=
+  if cfg_parent_walk c
+  then forall mods sc m n id x,
+         (forall y, mlookup mods sc ([m; n] ++ fst id, snd id) <> [y]) ->
+         mlookup mods sc ([m] ++ fst id, snd id) = [x] -> rel_enclosing c mods sc [m; n] id = Some x
+  else rel_arg_kind_m c (ex_ms [[109]; [110]]) ([], [107]) = Some ARel      (* the parent's constant k read as a database table *)
+       /\ (forall ms m cur n, ms_cur ms = m :: cur ->                        (* what does hold: the declaration's own module *)
+              mlookup (ms_mods ms) (shadowed (ms_scope ms)) (m :: cur, n) = [CRoot NValue] ->
+              rel_arg_kind_m c ms ([], n) = Some AScalar).
+
+Theorem c10_head_parent_modules : parent_visible_at head_cfg.
+Proof.
+  unfold parent_visible_at. destruct head_cfg as [a b] eqn:E. cbn [cfg_parent_walk]. destruct b.
+  - intros. apply parent_declaration_found; [reflexivity | assumption | assumption].
+  - split; [vm_compute; reflexivity|].
+    intros ms m cur n Hcur Hl. unfold rel_arg_kind_m. rewrite Hcur.
+    rewrite (ScopeProofs.rel_enclosing_sibling _ _ _ m cur [] n (CRoot NValue)); [reflexivity|]. rewrite app_nil_r. exact Hl.
+Qed.
+Print Assumptions c10_head_parent_modules.
+
 Example c10_ex_module_sibling :
-  rel_arg_kind_m (ex_ms [[109]]) ([], [107]) = Some AScalar
+  let old := mkCfg false false in let new := mkCfg false true in
+  rel_arg_kind_m old (ex_ms [[109]]) ([], [107]) = Some AScalar
   /\ rel_arg_kind_m_before_d92afac (ex_ms [[109]]) ([], [107]) = Some ARel
-  /\ rel_arg_kind_m (ex_ms [[109]]) ([], [114]) = Some ARel
-  /\ rel_arg_kind_m (ex_ms [[109]]) ([], [122]) = Some ARel                      (* no such sibling: database table z *)
-  /\ rel_arg_kind_m (ex_ms []) ([[109]], [107]) = Some AScalar                   (* from m.k at the root *)
-  /\ rel_arg_kind_m (ex_ms [[109]; [110]]) ([], [107]) = Some ARel               (* C10-F3: the parent's constant is not seen *)
-  /\ lower_ref_m (ex_ms [[109]]) ([], [107]) = OValue
-  /\ lower_ref_m (ex_ms [[109]; [110]]) ([], [107]) = OErr EUnknown.             (* value position, same pop_front *)
-Proof. vm_compute. auto 10. Qed.
+  /\ rel_arg_kind_m old (ex_ms [[109]]) ([], [114]) = Some ARel
+  /\ rel_arg_kind_m old (ex_ms [[109]]) ([], [122]) = Some ARel                      (* no such sibling: database table z *)
+  /\ rel_arg_kind_m old (ex_ms []) ([[109]], [107]) = Some AScalar                   (* from m.k at the root *)
+  /\ rel_arg_kind_m old (ex_ms [[109]; [110]]) ([], [107]) = Some ARel               (* C10-F3: the parent's constant is not seen *)
+  /\ rel_arg_kind_m new (ex_ms [[109]; [110]]) ([], [107]) = Some AScalar            (* ... and is, with the parent walk *)
+  /\ rel_arg_kind_m new (ex_ms [[109]]) ([], [107]) = Some AScalar
+  /\ lower_ref_m old (ex_ms [[109]]) ([], [107]) = OValue
+  /\ lower_ref_m old (ex_ms [[109]; [110]]) ([], [107]) = OErr EUnknown              (* value position, same pop_front *)
+  /\ lower_ref_m new (ex_ms [[109]; [110]]) ([], [107]) = OValue.
+Proof. vm_compute. auto 20. Qed.
+
+(* ---- every std function checks its arguments ----
+   The signature table is regenerated from std.prql; the generic theorems instantiate to EVERY entry, and the check calls
+   every entry of the table once with a surplus positional and once with an unknown named argument (stream std-table). *)
+Theorem c10_std_every_function_checks_arguments : forall p s, In (p, s) std_sigs ->
+  (forall args named, (length (fs_params s) < length args)%nat -> exists e, apply_fn s args named = AErr e)
+  /\ (forall args named n, In n named -> existsb (leqb n) (fs_named s) = false -> apply_fn s args named = AErr EUnknownNamed).
+Proof.
+  intros p s _. split.
+  - intros args named. apply ScopeProofs.too_many_args_rejected.
+  - intros args named n. apply ScopeProofs.unknown_named_arg_rejected.
+Qed.
+Print Assumptions c10_std_every_function_checks_arguments.
+
+(* the table is a function: one signature per path, each path a function of the std name table, every function has one *)
+Fixpoint paths_distinct (l : list (list str)) : bool :=
+  match l with [] => true | p :: l' => negb (existsb (path_eqb p) l') && paths_distinct l' end.
+
+Theorem c10_std_table_wellformed :
+  paths_distinct (map fst std_sigs) = true
+  /\ forallb (fun e => match std_all (fst e) std_names with [NFunc] => true | _ => false end) std_sigs = true
+  /\ forallb (fun e => match snd e with NFunc => existsb (fun g => path_eqb (fst e) (fst g)) std_sigs | _ => true end) std_names = true
+  /\ forallb (fun e => paths_distinct (map (fun n => [n]) (fs_named (snd e)))) std_sigs = true.
+Proof. vm_compute. auto. Qed.
+Print Assumptions c10_std_table_wellformed.
 
 (* ---- non-vacuity ---- *)
 
@@ -226,7 +342,7 @@ Proof. vm_compute. auto. Qed.
 
 (* `from t | filter c > 1` (t with unknown columns): inferred into t, documented behaviour *)
 Example c10_ex_wildcard_infers :
-  lower_ref (mkScope [] (mkFrame [mkInput [116] [] true] []) None [] std_names) ([], [99]) = OInferredColumn false 0.
+  lower_ref head_cfg (mkScope [] (mkFrame [mkInput [116] [] true] []) None [] std_names) ([], [99]) = OInferredColumn false 0.
 Proof. vm_compute. reflexivity. Qed.
 
 (* two wildcard inputs: a bare unknown name cannot be attributed *)
@@ -236,7 +352,7 @@ Proof. vm_compute. reflexivity. Qed.
 
 (* one closed and one wildcard input: attributed to the wildcard one *)
 Example c10_ex_one_wildcard_infers :
-  lower_ref (mkScope [] (mkFrame [mkInput [116] [[97]] false; mkInput [117] [] true] []) None [] std_names) ([], [99]) = OInferredColumn false 1.
+  lower_ref head_cfg (mkScope [] (mkFrame [mkInput [116] [[97]] false; mkInput [117] [] true] []) None [] std_names) ([], [99]) = OInferredColumn false 1.
 Proof. vm_compute. reflexivity. Qed.
 
 Example c10_ex_take_1_2 :
